@@ -572,7 +572,7 @@ func (fr *Frame) encodeSortSlice(x *ssa.Call) {
 	cfn := mc.Fn.(*ssa.Function)
 	cname := fr.e.p.fnName(cfn)
 	fr.e.res.callees[cname] = true
-	vc.note("sort.Slice permutes the slice in place using swaps only, calls less(i,j) only with 0 <= i,j < len, and has no other effect")
+	vc.note("sort.Slice permutes the slice in place using swaps only, calls less(i,j) only with 0 <= i,j < len, and has no other effect (assumed; checked against the real package on every arrangement of up to 7 keys and on longer slices, with consistent and inconsistent comparators, by the bounded part of C07)")
 	E := s.Ty.Elem
 	fr.regElem(E)
 	srt := elemMemSort(E)
